@@ -367,6 +367,7 @@ def libTask : String → Option TaskDef
       match fmtS (a "tag") with
       | some t => .err ⟨"LibError", "L-" ++ t⟩
       | none => .unk
+  | "ev.a_await_fail" => some <| mkTask [p "kind", p "tag"] fun a => .ok (tcall "ev.raiser" [a "kind", a "tag"])
   -- redun.functools
   | "redun.identity" => some <| mkTask [p "x"] fun a => .ok (a "x")
   | "redun.const" => some <| mkTask [p "x", p "_"] fun a => .ok (a "x")
